@@ -107,6 +107,11 @@ MENU = [
     FD("preserve", "Field(on_error='preserve', required=False)", required=False, on_error="preserve"),
     FD("alias-no-output", "Field(alias='{n}Out', no_output=True, default=7)", alias="{n}Out", no_output=True,
        required=False, default=("v", 7)),
+    # a mode-string no_input / no_output next to the field's own mode (the documented signup_time example)
+    FD("mode-wa-no-input-a", "Field(mode='wa', no_input='a', default=7)", mode="wa", no_input="a", required=False,
+       default=("v", 7)),
+    FD("mode-rw-no-output-w", "Field(mode='rw', no_output='w', default=7)", mode="rw", no_output="w", required=False,
+       default=("v", 7)),
 ]
 MENU_BY_TAG = {m.tag: m for m in MENU}
 QUICK_MENU = 8
